@@ -66,6 +66,9 @@ class Gen:
             n = s.rng.choice([0, 1, 1, 2, 2, 3, s.rng.randint(0, s.pol.big)])
         elif a == 'big':
             n = s.rng.randint(3, s.pol.big)
+        elif a in ('lim255', 'lim256'):
+            # the top of a u8 count and the first length beyond it (outermost arrays only)
+            n = int(a[3:]) if s.depth == 1 else s.rng.choice([0, 1, 2])
         else:
             n = int(a)
         n = min(n, maxv)
@@ -452,6 +455,8 @@ POLICY_VARIANTS = [
     Policy(arr=1, string='rand', num='max', opt=True, flag='all'),
     Policy(arr=2, string='rand', num='rand', opt='rand', flag='rand'),
     Policy(arr='big', string='max', num='rand', opt=True, flag='rand'),
+    Policy(arr='lim255', string='rand', num='rand', opt=True, flag='rand'),
+    Policy(arr='lim256', string='rand', num='rand', opt=True, flag='rand'),
 ]
 
 
